@@ -361,6 +361,55 @@ design(
 """,
 )
 
+# the std context wrappers with their rarely used options (comment / attributes / step_cond / on_reset / capture_lazy,
+# concurrent_assign / concurrent_eval helpers): every option value must stay with the design that gave it
+design(
+    "ctx_options_a",
+    """
+    def architecture(self):
+        s = Signal[Unsigned[4]](0)
+
+        @std.concurrent(comment="A: first concurrent block")
+        def logic_a():
+            s.next = self.v + 1
+
+        @std.concurrent(attributes={"comment": "A: attributes dict"})
+        def logic_b():
+            self.o <<= self.a & self.b
+
+        def on_rst():
+            self.w <<= 3
+
+        @std.sequential(std.Clock(self.clk), std.Reset(self.rst), comment="A: clocked", step_cond=lambda: self.a, on_reset=on_rst, attributes={"zero_init_temporaries": True})
+        def proc():
+            #@CTX
+            self.w <<= s
+""",
+)
+
+design(
+    "ctx_options_b",
+    """
+    def architecture(self):
+        s = Signal[Unsigned[4]](0)
+        std.concurrent_assign(s, self.v)
+
+        @std.concurrent(comment="B: only block with a comment", capture_lazy=True)
+        def logic_a():
+            self.o <<= self.a
+
+        @std.concurrent
+        def logic_plain():
+            pass
+
+        @std.sequential(std.Clock(self.clk), comment="B: clocked")
+        async def proc():
+            await self.b
+            #@CORO
+            self.w <<= helper_sel(self.a, s, self.v)
+""",
+)
+
 # designs that are invalid only because of context: must be rejected in a fresh interpreter
 CONTEXT_INVALID = {}
 CONTEXT_INVALID["wait_duration_no_freq"] = (
